@@ -142,7 +142,7 @@ def judge(ctx, name, l, variant, target, guess, out, rep):
 def lattices(ctx, rng):
     quick = ctx.tier == "quick"
     out = []
-    for n in ((2, 3, 4) if quick else (2, 3, 4, 5, 6, 8)):
+    for n in ((2, 3, 4, 15) if quick else (2, 3, 4, 5, 6, 8, 15, 20)):
         out.append((f"honey{n}", "tiling", eg.honeycomb_lattice(n)))
     for n in ((2,) if quick else (2, 3)):
         out.append((f"hso{n}", "tiling", eg.hex_square_oct_lattice(n)))
@@ -165,6 +165,20 @@ def lattices(ctx, rng):
     return [(n, f, zoo.rebuild(l)) for n, f, l in out]
 
 
+def independent_plaquettes(l, rng):
+    """a greedy maximal set of pairwise non-adjacent plaquettes (random order)"""
+    F = l.n_plaquettes
+    taken, blocked = [], set()
+    for i in rng.permutation(F):
+        i = int(i)
+        if i in blocked:
+            continue
+        taken.append(i)
+        blocked.add(i)
+        blocked.update(int(q) for q in l.plaquettes[i].adjacent_plaquettes if q != INVALID)
+    return np.array(sorted(taken), dtype=int)
+
+
 def targets_for(ctx, rng, l, variant):
     F = l.n_plaquettes
     lim = 8 if ctx.tier == "quick" else 10
@@ -183,9 +197,21 @@ def targets_for(ctx, rng, l, variant):
 def amorphous(ctx, rng):
     """make_amorphous / make_honeycomb end to end"""
     quick = ctx.tier == "quick"
-    for L in (range(3, 6) if quick else range(3, 9)):
-        for open_bc in (False, True):
-            seed = int(rng.integers(2**31))
+    # seeds whose Voronoi lattice contains a polygon size not seen so far (the ansatz must be right for every number of sides: 13- and 14-gons occur about
+    # once in a thousand 25-cell lattices): found by building the lattices only, then run through make_amorphous like the others
+    from koala import voronization as _vz
+    rare, seen_sides = [], set()
+    for sd in range(1500 if quick else 6000):
+        Lr = 5 + sd % 2
+        lat0 = _vz.generate_lattice(np.random.default_rng(sd).uniform(size=(Lr**2, 2)), shift_vertices=True)
+        sides = set(int(p.n_sides) for p in lat0.plaquettes)
+        if not sides <= seen_sides:
+            seen_sides |= sides; rare.append((Lr, False, sd))
+    ctx.dist["amorphous_polygon_sizes_covered"] = len(seen_sides)
+    ctx.extra["amorphous_polygon_sizes"] = sorted(seen_sides)
+    plan = [(L, open_bc, int(rng.integers(2**31))) for L in (range(3, 6) if quick else range(3, 9)) for open_bc in (False, True)] + rare
+    for L, open_bc, seed in plan:
+        if True:
             name = f"make_amorphous(L={L}, open={open_bc}, seed={seed})"
             rep = lambda what, **kw: ctx.impl_violation(f"{name}: {what}", dict(case=name, L=L, open=open_bc, seed=seed, **kw))
             try:
@@ -265,6 +291,17 @@ def run(ctx):
             calls = [(t, (1 - 2 * rng.integers(0, 2, size=l.n_edges)).astype(np.int8) if i % 2 else np.ones(l.n_edges, dtype=np.int8))
                      for i, t in enumerate(ts)]
             calls.append((None, None))       # default arguments
+            # structured targets: the plaquettes that have to change form a (greedy maximal) independent set - many defects, no two of them adjacent
+            ind = independent_plaquettes(l, rng)
+            if len(ind) >= 3:
+                for gi in (np.ones(l.n_edges, dtype=np.int8), (1 - 2 * rng.integers(0, 2, size=l.n_edges)).astype(np.int8)):
+                    with __import__("warnings").catch_warnings():
+                        __import__("warnings").simplefilter("ignore")
+                        ti = np.asarray(flux_fn(variant)(l, gi)).astype(np.int8).copy()
+                    ti[ind] *= -1
+                    calls.append((ti, gi))
+                ctx.count("independent_set_targets", 2)
+                ctx.dist["largest_independent_defect_set"] = max(ctx.dist.get("largest_independent_defect_set", 0), len(ind))
             for target, guess in calls:
                 rep = lambda what, **kw: ctx.impl_violation(
                     f"{name} [{variant}]: {what}",
@@ -296,6 +333,32 @@ def run(ctx):
                     reqs.append(dict(op="solve", variant=variant, sign_real=SIGN_REAL, target=t_eff.tolist(), guess=g_eff.tolist(),
                                      steps=steps, **lat))
                     meta.append((name, l, variant, t_eff, g_eff, out, steps))
+    # ---- the usual way of writing a target: take the fluxes of the guess and edit that array in place.  The flux functions hand out a result the caller owns
+    #      (a second call is not disturbed by what the caller did to the first result), and the solver called with the edited array obeys its contract
+    for name, fam, l in [c for c in lattices(ctx, np.random.default_rng(ctx.seed + 1)) if c[2].n_plaquettes >= 6][:10]:
+        if not plaquette_graph_connected(l):
+            continue
+        for variant in ("new", "old"):
+            fl = flux_fn(variant)
+            g = (1 - 2 * rng.integers(0, 2, size=l.n_edges)).astype(np.int8)
+            rep = lambda what, **kw: ctx.impl_violation(f"{name} [{variant}, target edited in place]: {what}", dict(case=name, lattice=zoo.lat_to_json(l), variant=variant, guess=g.tolist(), **kw))
+            try:
+                import warnings
+                with warnings.catch_warnings():
+                    warnings.simplefilter("ignore")
+                    t = fl(l, g)
+                    ref = np.array(t).copy()
+                    k = rng.choice(l.n_plaquettes, size=int(rng.integers(2, 5)) & ~1 or 2, replace=False)
+                    t[k] *= -1                                           # the caller's own array now
+                    again = fl(l, g)
+                    if not np.array_equal(again, ref):
+                        rep("the fluxes of the same bonds are different after the caller edited the array returned by the previous call"); continue
+                    out = solver_fn(variant)(l, t, g)
+                    if int(np.count_nonzero(fl(l, out) != t)) != 0:
+                        rep(f"solver called with a target made by editing the flux array of its guess in place misses it on {int(np.count_nonzero(fl(l, out) != t))} plaquettes (an even number, {len(k)}, had to change)", flipped=[int(x) for x in k]); continue
+            except Exception as ex:
+                rep(f"raised {type(ex).__name__}: {ex}"); continue
+            ctx.case((name, variant, "target edited in place"), nontrivial=True)
     outs = core.Driver().run_parallel(reqs)
     for (name, l, variant, t_eff, g_eff, out, steps), o in zip(meta, outs):
         brk = lambda what, **kw: ctx.corr_break(f"{name} [{variant}]: {what}",
